@@ -21,6 +21,16 @@ CHECKS = {
          NOTE, "DESIGN.md 3/C16"),
  "C17": ("Defining identities of TotalLiftDrag, SumAreas, Equilibrium (incl. residual = 0 iff L = W), BreguetRange, CenterOfGravity, MomentCoefficient, ReynoldsComp as SMT identities over all real inputs for 1-3 surfaces; atmosphere: on each of the 111 table intervals (Akima pieces taken as concrete polynomials) derivative consistency, v = M a, continuity at nodes, positivity and ideal-gas / speed-of-sound consistency within 0.5% as univariate polynomial (in)equalities decided by the solver.",
          NOTE + " scipy's construction of the Akima coefficients is taken as data; the 0.5% consistency tolerance is this design's reading of 'mutually consistent'.", "DESIGN.md 3/C17"),
+ "C06": ("Dynamic-pressure (rho -> a rho, v -> b v), length (k) and translation laws and the lift/drag decomposition posed as SMT identities between two symbolic executions of each real aerodynamic component with related symbolic inputs (ConvertVelocity, VLMMtxRHSComp, EvalVelocities, PanelForces, CollocationPoints, VortexMesh, GetVectors, VLMGeometry, LiftDrag, LiftCoeff2D, Coeffs, MomentCoefficient, RotationalVelocity, ViscousDrag, WaveDrag) plus the 1/k scaling lemma of the real vortex kernels.",
+         NOTE + " The laws are verified component by component; their composition through the linear solve uses the stated algebraic step (a nonsingular system has a unique solution). Kernel scaling assumes both configurations lie outside the absolute 1e-10 tolerance band.", "DESIGN.md 3/C06"),
+ "C09": ("Reduced claim: the algebraic identities of the Prandtl-Glauert pipeline components - documented wind-frame rotation matrix, RotateFrom o RotateTo = identity, scaling exponents (points 1,b,b; normals b,1,1; rotational velocities b^2,b,b; forces 1/b^4,1/b^3,1/b^3), identity at Mach 0, rotation covariance of the real vortex kernels and orthogonality of the rotation - as SMT identities over all real inputs.",
+         NOTE + " Not decided: continuity in Mach beyond the algebraic form; the end-to-end compressible-vs-incompressible comparison is reduced to the kernel covariance lemmas.", "DESIGN.md 3/C09"),
+ "C13": ("Each geometry transformation run symbolically on a symbolic mesh (constant-y chord lines, reference-axis position symbolic in [0,1]): default value => output == input, and the documented effect (taper law, chord scaling about the reference axis, sweep/dihedral tan(angle) x distance from root, shears as translations, span sets the extent, twist preserves chord length and the reference axis) as SMT identities; B-spline row sums as ground queries.",
+         NOTE + " Known finding listed: Rotate(rotate_x) is not a no-op at zero twist for non-flat sections with dihedral. OpenMDAO's SplineComp matrix is taken as data.", "DESIGN.md 3/C13"),
+ "C14": ("generate_mesh / getFullMesh executed with symbolic span, chord, cosine-spacing blends in [0,1] and offset: ordering, extents, mirror symmetry, offset-as-translation, half == left half of full, mirroring back == full as SMT obligations; multi-section generate_mesh/unify_mesh with symbolic per-section span, taper, sweep: coincident edges, unify == contiguous surface, ordering; CRM tables and the special spacing value as ground queries on the real output.",
+         NOTE + " CRM planform tables are concrete data; concrete cosines are the doubles numpy computes.", "DESIGN.md 3/C14"),
+ "C18": ("Reduced claim: option off => exactly 0; TotalDrag sum; wave drag zero below the critical Mach number, positive, increasing in Mach and lift, continuous and smooth at onset on every path; viscous drag positive, decreasing in Reynolds number and increasing in t/c for fully turbulent / fully laminar flow; spanwise and chordwise panel-count independence on constant-chord wings - as SMT obligations with log/pow atoms.",
+         NOTE + " With transition (0 < k_lam < 1) positivity and Re-monotonicity need monotonicity of x/log10(x)^2.58, outside the instantiated axioms: posed and reported inconclusive.", "DESIGN.md 3/C18"),
 }
 
 
